@@ -77,13 +77,17 @@ P("C07", ["ESC", "NITOFF", "SIB", "CBUSE"],
   "(CBUSE) the callback's result only decides the user-callback stop and nothing else depends on the presence "
   "of a callback.",
   "'obtains the same continuation' (composition with C06; numerical)", design="3/C07")
-P("C08", ["IDX", "SIGN", "PIN"],
+P("C08", ["IDX", "SIGN", "PIN", "CPFORM", "RATIOFORM"],
   "(IDX) index-space typing of the breakpoint bookkeeping (the property's named defect); (SIGN) breakpoints "
   "t >= 0 on both branches, pinned bound on the side of d, f' <= 0, f'' >= 0 at their definitions; (PIN) "
-  "variables reaching a bound are pinned by copying the bound, not by arithmetic.",
-  "first-local-minimiser characterisation, model decrease, c = W^T(x_cp - x) (floating-point linear algebra)",
+  "variables reaching a bound are pinned by copying the bound, not by arithmetic; (CPFORM) the initialisation, "
+  "the per-breakpoint updates of c, f', f'', p, dt_min and the final segment are symbolically executed into a "
+  "linear-algebra normal form and equal Algorithm CP of Byrd-Lu-Nocedal up to algebraic equivalence, with and "
+  "without a limited-memory matrix; (RATIOFORM) breakpoint times are (x - bound)/g componentwise.",
+  "floating-point error of these formulas; that the loop visits breakpoints until the first local minimiser "
+  "(control structure beyond IDX); model decrease as a numerical fact",
   design="3/C08")
-P("C09", ["SIGN", "ALPHA", "FREE"],
+P("C09", ["SIGN", "ALPHA", "FREE", "RATIOFORM"],
   "The three places where the subspace step touches the box: (SIGN) truncation ratios non-negative on both "
   "branches; (ALPHA) the truncation factor is min(1, nonneg) and multiplies the whole step once; (FREE) free set = "
   "strictly interior variables of the Cauchy point, active set its complement, step enters only through Z.",
@@ -94,7 +98,7 @@ P("C10", ["MEM"],
   "reject-no-touch for history and matrices, bounded FIFO (<= maxcor pairs, oldest dropped), lock-step of X and G.",
   "equality of the compact representation with dense BFGS, positive definiteness, secant equation (matrix "
   "identities in floating point)", design="3/C10")
-P("C11", ["BOX", "DOWNHILL", "LSBUD", "SIGN"],
+P("C11", ["BOX", "DOWNHILL", "LSBUD", "SIGN", "RATIOFORM"],
   "(BOX) the three trial-point sites of line_search are projections onto [lb, ub]; (DOWNHILL) returned step is "
   "None or strictly downhill w.r.t. the start value (a zero step can never be returned under it); (LSBUD) one "
   "evaluation per loop iteration, counter guard `< max_iter`, SciPy's DCSRCH._iterate calls no user function "
